@@ -34,6 +34,8 @@ def jobs(prop, tier, seed):
     data_ids = pools.ids("data", tier)
     todo = [("data", pid) for pid in data_ids + pools.random_ids(seed, 8 if tier == "quick" else 60)]
     todo += [("union", pid) for pid in pools.ids("union", tier) if pid not in data_ids]
+    # serialization-side objects (serialized methods, one-way fields): merged definitions
+    todo += [("ser", pid) for pid in pools.SER_OBJECTS if has_obj(pools.get("ser", pid)[0])]
     for pool, pid in todo:
         spec, _ = pools.get(pool, pid)
         if any(s.k == "obj" and any(f.fall_back for f in s.a) for s in walk(spec)):
